@@ -190,6 +190,26 @@ func (s *state) runSite(fn *ssa.Function, site string, pos token.Pos, rs []Val) 
 		}
 		for i, c := range ss.clauses {
 			e.what = fmt.Sprintf("%s at %s: %s", funcKey(fn), site, c.src)
+			if c.kind == "use" || c.kind == "inst" {
+				// proof hints: if one no longer binds to the code it is dropped;
+				// the clauses that needed it then fail by name
+				ok := func() (ok bool) {
+					defer func() {
+						if r := recover(); r != nil {
+							if ee, isE := r.(engineErr); isE {
+								s.u.notes["proof hint dropped (no longer binds): "+string(ee)] = true
+								ok = false
+								return
+							}
+							panic(r)
+						}
+					}()
+					s.runHintClause(e, c, pos, fn, site)
+					return true
+				}()
+				_ = ok
+				continue
+			}
 			switch c.kind {
 			case "assert":
 				goal := e.evalBool(c.e)
@@ -291,9 +311,75 @@ func (e *env) ghostOf(x ast.Expr) *ghostDecl {
 	return nil
 }
 
+func (s *state) runHintClause(e *env, c *clause, pos token.Pos, fn *ssa.Function, site string) {
+	switch c.kind {
+	case "use":
+		for _, x := range c.exprs {
+			s.useHint(e, x, pos, funcKey(fn)+":"+strings.ReplaceAll(site, " ", "_"))
+		}
+	case "inst":
+		for _, x := range c.exprs {
+			v := e.eval(x)
+			if v.K != nil {
+				v = s.u.mat(v, nil)
+			}
+			for k, l := range s.u.m.leaves(v.T) {
+				s.cands = append(s.cands, binder{v.S[k], l.sort})
+			}
+		}
+	}
+}
+
 // useHint: `use L(args)` assumes an axiom/lemma instance; `use <bool expr>`
 // for anything else is a proof step: asserted (obligation) and then assumed.
+// isLemmaFormula: built only from lemma/axiom instances (possibly guarded,
+// conjoined or universally quantified) - valid, hence sound to assume
+func (s *state) isLemmaFormula(e *env, x *sexpr) bool {
+	if x.op == "==>" {
+		return s.isLemmaFormula(e, x.b)
+	}
+	if x.op != "" {
+		return false
+	}
+	var chk func(n ast.Expr) bool
+	chk = func(n ast.Expr) bool {
+		switch t := n.(type) {
+		case *ast.ParenExpr:
+			return chk(t.X)
+		case *ast.BinaryExpr:
+			return t.Op == token.LAND && chk(t.X) && chk(t.Y)
+		case *ast.Ident:
+			if sub, ok := x.tab[t.Name]; ok {
+				return s.isLemmaFormula(e, sub)
+			}
+		case *ast.CallExpr:
+			name := exprStr(t.Fun)
+			if sf := s.u.eng.findSpec(e.pkg, name); sf != nil && (sf.kind == "axiom" || sf.kind == "lemma") {
+				if sf.kind == "lemma" {
+					s.u.notes["lemma used: "+sf.name+" (proved separately)"] = true
+				}
+				return true
+			}
+			if name == "forall" && len(t.Args) >= 3 {
+				return chk(t.Args[len(t.Args)-1])
+			}
+		}
+		return false
+	}
+	return chk(x.e)
+}
+
 func (s *state) useHint(e *env, x *sexpr, pos token.Pos, site string) {
+	if x.op == "==>" && s.isLemmaFormula(e, x) {
+		s.pc = append(s.pc, e.evalBool(x))
+		return
+	}
+	if x.op == "" {
+		if be, ok := x.e.(*ast.BinaryExpr); ok && be.Op == token.LAND && s.isLemmaFormula(e, x) {
+			s.pc = append(s.pc, e.evalBool(x))
+			return
+		}
+	}
 	if call, ok := x.e.(*ast.CallExpr); ok && x.op == "" {
 		if sf := s.u.eng.findSpec(e.pkg, exprStr(call.Fun)); sf != nil && (sf.kind == "axiom" || sf.kind == "lemma") {
 			s.pc = append(s.pc, e.useInstance(x))
